@@ -129,6 +129,7 @@ type c12Rec struct {
 	dup        string
 	ballast    int    // list ops: ballast entries listed
 	blocked    bool   // register ops: the registration call did not return
+	props      map[string]string // tools/list: name -> the parameter names of the listed input schema
 	ok         bool   // call/get/read succeeded
 	text       string // call/get/read payload
 	code       int    // error code
@@ -212,6 +213,19 @@ func execC12(c C12Case) *Failure {
 				}
 				r.listed[n] = d + "|" + fmt.Sprint(im["name"])
 				r.order = append(r.order, n)
+				if sch, ok := im["inputSchema"].(map[string]interface{}); ok && key == "tools" {
+					var props []string
+					if pm, ok := sch["properties"].(map[string]interface{}); ok {
+						for k := range pm {
+							props = append(props, k)
+						}
+					}
+					sort.Strings(props)
+					if r.props == nil {
+						r.props = map[string]string{}
+					}
+					r.props[n] = strings.Join(props, ",")
+				}
 			}
 		}
 		single := func(method, params string) {
@@ -233,7 +247,8 @@ func execC12(c C12Case) *Failure {
 		case "regtool":
 			r.ver = int(verSeq.Add(1))
 			tag := fmt.Sprintf("%s:v%d", name, r.ver)
-			w.Srv.RegisterTool(mcp.NewTool(name, mcp.WithDescription(tag)), func(ctx context.Context, req *mcp.CallToolRequest) (*mcp.CallToolResult, error) {
+			// every version's descriptor is built from the same struct type plus one parameter of its own
+			w.Srv.RegisterTool(mcp.NewTool(name, mcp.WithDescription(tag), mcp.WithInputStruct[typedInner](), mcp.WithString(fmt.Sprintf("p%d", r.ver))), func(ctx context.Context, req *mcp.CallToolRequest) (*mcp.CallToolResult, error) {
 				return mcp.NewTextResult(tag), nil
 			})
 		case "unreg":
@@ -459,6 +474,14 @@ func judgeC12(c C12Case, recs []*c12Rec) *Failure {
 				}
 				if listed {
 					tag := desc[:strings.LastIndex(desc, "|")]
+					if reg == "tool" && r.props != nil {
+						// the listed schema is the one this version was registered with: the struct's fields and its own parameter
+						want := []string{"label", "tags", "p" + tag[strings.LastIndex(tag, ":v")+2:]}
+						sort.Strings(want)
+						if got := r.props[k]; got != strings.Join(want, ",") {
+							return Failf("C12/torn-entry/"+reg, "%s: %s lists %q (descriptor %q) with parameters [%s], it was registered with [%s]\nhistory: %s", c.Mode, r.op.Op, k, tag, got, strings.Join(want, ","), hist())
+						}
+					}
 					if !versionsOf(reg, k, r.end)[tag] || !strings.HasSuffix(desc, "|"+n) {
 						return Failf("C12/torn-entry/"+reg, "%s: %s lists %q with descriptor %q, which is none of the registered versions %v\nhistory: %s", c.Mode, r.op.Op, k, desc, sortedKeys(versionsOf(reg, k, r.end)), hist())
 					}
